@@ -91,16 +91,16 @@ def _first_ops(doc):
     return L.alphabet(T.TexSoup(doc))
 
 
-def _random_unit_histories(seed, n, max_len, aop_share):
+def _random_unit_histories(seed, n, max_len, aop_share, docs_any=False):
     rng = random.Random(seed)
     out = []
     for _ in range(n):
         doc = L.gen_doc(rng)
         ln = rng.randint(1, max_len)
         if aop_share:
-            out.append((doc, L.gen_history(rng, doc, ln, aop_share)))
+            out.append((doc, L.gen_history(rng, doc, ln, aop_share, docs_any)))
         else:
-            out.append((doc, L.gen_ops(rng, doc, ln)))
+            out.append((doc, L.gen_ops(rng, doc, ln, docs_any)))
     return out
 
 
@@ -110,8 +110,8 @@ def _unit_histories(unit):
         _, doc, prefix, depth, seed, sample = unit
         return [(doc, h) for h in bfs_extend(doc, prefix, depth, random.Random(seed), sample)]
     if kind == 'random':
-        _, seed, n, max_len, aop_share = unit
-        return _random_unit_histories(seed, n, max_len, aop_share)
+        _, seed, n, max_len, aop_share = unit[:5]
+        return _random_unit_histories(seed, n, max_len, aop_share, len(unit) > 5 and unit[5])
     if kind == 'transplant':
         _, seed, n, tail = unit
         rng = random.Random(seed)
@@ -136,7 +136,7 @@ def _plan(ctx, rng, oracle=False, scale=1):
     max_len = ctx.pick(8, 30)
     per = 25
     for i in range(0, n, per):
-        units.append(('random', rng.getrandbits(32), min(per, n - i), max_len, 0.25))
+        units.append(('random', rng.getrandbits(32), min(per, n - i), max_len, 0.25, oracle))
     nt = ctx.pick(300, 1500) * scale
     for i in range(0, nt, per):
         units.append(('transplant', rng.getrandbits(32), min(per, nt - i), ctx.pick(4, 8)))
@@ -158,7 +158,7 @@ def _corr_unit(unit):
         _bucket(stats, h)
         if len(h) >= 2:
             hashes.append(_crc(doc, ';'.join(h)))
-        if a != m and len(fails) < 2:
+        if not L.same_answer(a, m, h) and len(fails) < 2:
             fails.append({'key': 'model-mismatch', 'what': 'history of %d ops' % len(h),
                           'input': {'doc': doc, 'ops': h}})
     return n, hashes, fails, stats
@@ -205,7 +205,9 @@ def correspondence(ctx):
               'steps are operations on a node\'s argument list itself - append/extend/insert/pop/remove/reverse/clear/slice/'
               'permutation and the own list put back after an in-place edit, negative and out-of-range indices included - '
               'answered by the model as .setArgs of the plain-list result (ArgsEdit.lean), a list operation that raises must '
-              'be a refused step on both sides; ~12%% of the new nodes are taken '
+              'be a refused step on both sides; kept slices (a slice is a copy) likewise; a whole parsed document as new '
+              'material occurs in the last step only and then only the serialisations are compared (the model splices its '
+              'elements where the implementation nests its root); insertion indices beyond the end; ~12%% of the new nodes are taken '
               'from inside an argument / group / \\item of a snippet) on lib_edit.gen_doc documents; %d transplant histories '
               '(lib_edit.gen_transplant without copies: such a node is appended / inserted / put in place of a node, often '
               'next to a textual twin, and later steps delete / replace it at its new place); the snippet documents must '
@@ -315,6 +317,15 @@ FIXED_HISTORIES = [
     # strings that are LaTeX source are spliced in verbatim, as one text leaf
     ('\\begin{a}\\x\\end{a}\\x', ['app b0 s:' + enc('\\ref {fig}'), 'ins r 1 s:' + enc('\\begin{x}') + ',s:' + enc('\\textbf a'),
                                     'rep b0.b0 s:' + enc('\\[') + ',s:' + enc('{'), 'del b0.b2']),
+    # several pieces inserted at an index beyond the end arrive in the given order
+    ('\\begin{a}\\x\\y\\end{a}\\x', ['ins b0 12 n:' + enc('\\p{1}') + ',s:' + enc('txt') + ',n:' + enc('\\q{2}'),
+                                    'ins r 1000 n:' + enc('\\p{1}') + ',s:' + enc('P'), 'del b0.b4', 'ins b0 99 s:-,n:' + enc('\\x') + ',s:' + enc('z')]),
+    # a whole parsed document as one piece: all of its text, blank-only tokens included
+    ('\\section{A}\\x tail', ['rep b1 d:' + enc('\\alpha \\beta'), 'ins r 0 s:' + enc('Fig. ') + ',d:' + enc('\\a{1}\n\\b{2}\n'),
+                              'app r d:' + enc(' '), 'del b0']),
+    # a slice kept across an in-place edit of the node's list, and the converse
+    ('\\x{a}[b]{c}\\x{a}[b]{c}', ['aop b0 ks _ _ rev', 'aop b1 ks 0 _ pop 0', 'aop b0 kc _ 99 pop 0', 'aop b1 kca _ 3 rev',
+                                   'aop b0 ks _ 3 clr', 'del b1.a0:0']),
     # the own argument list taken, edited in place and put back
     ('\\x{a}[b]{c}\\x{a}[b]{c}', ['aop b0 srev', 'aop b1 same', 'aop b0 spop 1', 'aop b1 sins 1 g:' + enc('\\x{a}'), 'del b1.a1:0']),
 ]
@@ -422,7 +433,9 @@ def oracle(ctx, seeds, scale):
               'lib_edit.alphabet on %d tiny documents; %d random histories of 1..%d ops on lib_edit.gen_doc documents '
               '(lib_edit.gen_history: del, rep, ins, app, ren, str, args, 25%% TexArgs operations append/extend/insert/pop/'
               'remove/reverse/clear/slice/permutation and the own list put back after nothing/reverse/pop/insert/append on it '
-              'in place, ~10%% refused ops; 30%% of the new plain strings are LaTeX source - lib_edit.SRC_STRS: blank between '
+              'in place, slices kept across an in-place edit (keep = args[lo:hi], every bound shape; edit args; keep holds '
+              'the old elements; args = keep) and edits of a kept slice, whole parsed documents as one piece of new material '
+              '(all of their text must arrive), several pieces inserted at indices beyond the end (in the given order), ~10%% refused ops; 30%% of the new plain strings are LaTeX source - lib_edit.SRC_STRS: blank between '
               'command and group, bare token after a fixed-signature command, unbalanced fragments, lone backslash, comment - '
               'and must be spliced in verbatim as one text leaf; the empty string occurs among several pieces); %d transplant histories (lib_edit.gen_transplant '
               'without copies: a node taken from inside an argument / group / \\item body of a separately parsed snippet is '
